@@ -5,10 +5,10 @@ import os
 import vlib
 
 
-def gen_scenarios(ctx, n, depth=24, seed=None):
+def gen_scenarios(ctx, n, depth=24, seed=None, cfg='OciRegistryGen.cfg'):
     """TLC-generated histories over the small universe (random walks of OciRegistryGen)."""
     seed = ctx.seed if seed is None else seed
-    scen, r = vlib.generate(ctx, 'OciRegistryGen.tla', 'OciRegistryGen.cfg',
+    scen, r = vlib.generate(ctx, 'OciRegistryGen.tla', cfg,
                             simulate='num=%d' % n, extra=['-depth', str(depth + 4), '-seed', str(seed)])
     if not scen:
         raise vlib.Machinery('TLC generated no scenarios:\n' + vlib.tlc_errors(r['out']))
@@ -71,3 +71,36 @@ def replay_reg(ctx, path, module='RegTrace', cfg='RegTrace.cfg', strict=None):
         return 1
     print('replay accepted: the stored scenario no longer violates %s' % ctx.pid)
     return 0
+
+
+def reg_check(ctx, stacks, strict, n_tlc, n_rand, steps=40, profiles=('all',), tlc_cfg='OciRegistryGen.cfg', honest=False,
+              label='', per_file=400):
+    """Common body: TLC-generated histories + seeded-random ones on the given stacks, then
+    trace validation against OciRegistry via RegTrace."""
+    vh = vlib.build_harness(ctx)
+    td = ctx.sub('traces')
+    traces = []
+    scen = gen_scenarios(ctx, n_tlc, cfg=tlc_cfg)
+    sp = write_scenarios(ctx, scen)
+    t1 = os.path.join(td, 'tlc.ndjson')
+    run_reg(ctx, vh, t1, stacks=stacks, scen=sp, extra=['-honest'] if honest else [])
+    traces.append(t1)
+    i = 0
+    left = n_rand
+    while left > 0:
+        for prof in profiles:
+            if left <= 0:
+                break
+            k = min(per_file, left)
+            t = os.path.join(td, 'rand%d.ndjson' % i)
+            run_reg(ctx, vh, t, stacks=stacks, n=k, steps=steps, seed=ctx.seed * 1000 + i, profile=prof,
+                    extra=['-honest'] if honest else [])
+            traces.append(t)
+            left -= k
+            i += 1
+    for t in traces:
+        count_ops(ctx, t)
+    ctx.cov['samples'] = [dict(tlc_generated_scenario=scen[0]['ops'][:8]), dict(recorded_events=sample_events(traces[-1], 4))]
+    ctx.cov['stacks'] = stacks.split(';')
+    vlib.judge_traces(ctx, 'RegTrace', 'RegTrace.cfg', traces, strict=strict, label=label)
+    return traces
